@@ -214,4 +214,29 @@ def TrSeq : List Tree → List Ev → Prop
   | t :: t' :: ts, σ => ∃ τ, Tr t (pA τ) ∧ TrSeq (t' :: ts) (pB τ) ∧ σ = pE τ
 end
 
+/-! ## behaviours that have come to rest
+
+Every real queue of the tree is empty, nothing is held by a worker, no call is running, nothing is
+waiting to be put on an output queue.  (The ghost list `pend` of the ensemble / switch is NOT part of
+the definition: that it is empty follows from the members being at rest.) -/
+
+mutual
+def TrQ : Tree → List Ev → Prop
+  | .worker w, σ => ∃ as s, Core.run (WkL.step w) WkL.init as = some s ∧ s.tr = σ ∧ Wk.Quiescent s.core
+  | .seq ts, σ => TrQSeq ts σ
+  | .ens ts ff, σ =>
+    ∃ as s, Core.run (EnsL.step ts.length ff) EnsL.init as = some s ∧ s.tr = σ ∧
+      s.core.qin = [] ∧ s.core.mout = [] ∧ s.core.emitq = [] ∧ TrQAll ts 0 s.mtr
+  | .switch ts sel, σ =>
+    ∃ as s, Core.run (SwL.step ts.length sel) SwL.init as = some s ∧ s.tr = σ ∧
+      s.core.qin = [] ∧ s.core.emitq = [] ∧ TrQAll ts 0 s.mtr
+def TrQAll : List Tree → Nat → List (Nat × Ev) → Prop
+  | [], _, _ => True
+  | t :: ts, i, mtr => TrQ t (proj i mtr) ∧ TrQAll ts (i + 1) mtr
+def TrQSeq : List Tree → List Ev → Prop
+  | [], _ => False
+  | [t], σ => TrQ t σ
+  | t :: t' :: ts, σ => ∃ τ, TrQ t (pA τ) ∧ TrQSeq (t' :: ts) (pB τ) ∧ σ = pE τ
+end
+
 end Servlet
